@@ -803,6 +803,43 @@ func (c *Ctx) poolLocking() {
 			det = "pool state touched at " + bad + " before the lock is taken"
 		}
 		c.R.Check("L-lock", short(fname(f))+"|locks first", bad == "", c.pos(f.Pos()), det)
+		// ... and keeps it: nothing touches the pool after an explicit Unlock/RUnlock unless the lock is taken again
+		late := ""
+		for _, b := range f.Blocks {
+			for _, in := range b.Instrs {
+				ci, ok := in.(*ssa.Call) // explicit (not deferred) unlock
+				if !ok {
+					continue
+				}
+				o := ssau.CalleeObj(&ci.Call)
+				if o == nil || (o.Name() != "Unlock" && o.Name() != "RUnlock") || o.Pkg() == nil || o.Pkg().Path() != "sync" {
+					continue
+				}
+				ra := ssau.ReachAfter(f, ci, cut)
+				for _, b2 := range f.Blocks {
+					for _, in2 := range b2.Instrs {
+						if in2 == ssa.Instruction(ci) || !ra.Instr(in2) {
+							continue
+						}
+						hit := false
+						for _, op := range in2.Operands(nil) {
+							if *op != nil && guarded(*op) {
+								hit = true
+							}
+						}
+						if c2, ok := in2.(ssa.CallInstruction); ok {
+							if g := c2.Common().StaticCallee(); g != nil && touches[g] && len(ssau.CallsIn(g, lockP)) == 0 && !lockP(c2.Common()) {
+								hit = true
+							}
+						}
+						if hit && late == "" {
+							late = c.posOf(in2)
+						}
+					}
+				}
+			}
+		}
+		c.R.Check("L-lock", short(fname(f))+"|holds the lock while touching", late == "", c.pos(f.Pos()), "pool state is touched at "+late+" after the lock was released")
 	}
 	c.R.FloorCheck("L-lock exported pool methods touching state", n, 12)
 }
